@@ -4,6 +4,8 @@ import (
 	"bytes"
 	stdjson "encoding/json"
 	"fmt"
+	"os"
+	"path/filepath"
 	"runtime"
 	"strings"
 	"sync/atomic"
@@ -115,6 +117,15 @@ func (st *c03State) judge(c *fw.Ctx, in []byte, limit, global uint32, entry stri
 			mimetype.SetLimit(limit)
 			m, _ = mimetype.DetectReader(&oddChunks{b: in})
 			hdr = lib.Header(in, limit)
+		} else if entry == "DetectFile" {
+			f := filepath.Join(os.TempDir(), fmt.Sprintf("verif-c03-%d.bin", os.Getpid()))
+			if err := os.WriteFile(f, in, 0o600); err != nil {
+				panic("verif harness: " + err.Error())
+			}
+			mimetype.SetLimit(limit)
+			m, _ = mimetype.DetectFile(f)
+			os.Remove(f)
+			hdr = lib.Header(in, limit)
 		} else {
 			mimetype.SetLimit(limit)
 			m = mimetype.Detect(in)
@@ -158,7 +169,7 @@ func (st *c03State) judge(c *fw.Ctx, in []byte, limit, global uint32, entry stri
 			bad("trace-order", fmt.Sprintf("detector call #%d consulted %s%s but the first-match depth-first walk expects %s", i, t.Nodes[e.id].MIME, t.Nodes[e.id].Ext, exp))
 			return
 		}
-		if e.n != len(hdr) || e.limit != limit || (len(hdr) > 0 && e.ptr != wantPtr && entry != "DetectReader") || (entry == "DetectReader" && e.ptr != st.trace[0].ptr) {
+		if e.n != len(hdr) || e.limit != limit || (len(hdr) > 0 && e.ptr != wantPtr && entry != "DetectReader" && entry != "DetectFile") || ((entry == "DetectReader" || entry == "DetectFile") && e.ptr != st.trace[0].ptr) {
 			bad("trace-args", fmt.Sprintf("detector %s%s was given (len %d, limit %d, same buffer %v) but the walk examines (len %d, limit %d)", t.Nodes[e.id].MIME, t.Nodes[e.id].Ext, e.n, e.limit, e.ptr == wantPtr, len(hdr), limit))
 			return
 		}
@@ -524,6 +535,9 @@ func c03Run(c *fw.Ctx, b fw.Batch) {
 			entry, global := "Detect", limit
 			if r.Intn(9) == 0 && limit < 1<<20 {
 				entry = "DetectReader" // the reader path: the walk must examine exactly min(len, limit) bytes (whatever limit came before)
+				if r.Intn(3) == 0 {
+					entry = "DetectFile" // and every detector must be told the limit that was set, also for small files
+				}
 			} else if r.Intn(4) == 0 {
 				entry = "VerifMatch"
 				global = []uint32{0, 1, 3072, limit + 1, 77}[r.Intn(5)]
